@@ -365,6 +365,13 @@ func genStatement(rt *rapid.T, md mode, mutate bool) *generated {
 		}
 		for i := range toks {
 			toks[i].glue = toks[i].glue && rapid.Bool().Draw(rt, "keepglue")
+			// the lexer continues the name of a bind placeholder over '.', letters and digits:
+			// ":status" glued to ".zq_k" is the single placeholder ":status.zq_k", which passes
+			// through by design (its name is not an identifier of the statement) and would only
+			// trip the canary scan
+			if i > 0 && toks[i-1].role == rBind {
+				toks[i].glue = false
+			}
 		}
 	}
 	g.toks = toks
